@@ -47,6 +47,8 @@ def gen_cases_shared(seed, tier, n):
             c = tracegen.gen_sync_scenario(seed, i)
         elif i % 5 == 2:
             c = tracegen.gen_event_sync_scenario(seed, i)
+        elif i % 10 == 8:
+            c = tracegen.gen_backlog_scenario(seed, i)      # the device runs behind: work of one step is still queued when the next begins
         elif i % 10 == 1:
             # zero-duration host events (also in the instant where one operator ends and the next begins): the analysis drops them
             # before it builds the call stacks, so they must not disturb the graph
@@ -63,6 +65,10 @@ def gen_cases_shared(seed, tier, n):
                 evs = [rk["events"][k] for k in pos]
                 for k, e in zip(pos, reversed(evs)):
                     rk["events"][k] = e
+        if i % 7 == 3:
+            # a second host process whose thread has the same thread id as one of the first (its events shifted a little, so that they overlap
+            # the originals without nesting): call stacks are per (process, thread)
+            tracegen.add_second_process(c, random.Random(seed * 104729 + i), shift=rng.choice([1, 2, 3, 5]))
         if i % 8 == 6:
             fw.set_quarter_us(c)           # quarter-microsecond resolution (framework.resolution): times and weights are compared after scaling by 4
         out.append(c)
